@@ -68,6 +68,7 @@ class FnContract:
         self.requires = []   # list of (label, text)
         self.ensures = []
         self.loops = {}      # k -> text
+        self.optional_loops = set()
         self.proofs = []     # (where, anchor, text)
         self.sigsubs = []    # (old, new)
         self.closures = []   # (old header, new header, clauses text)
@@ -146,9 +147,13 @@ def parse_contracts(path):
                 cur.ret = rest
             elif tag in ("requires", "ensures"):
                 section = tag
-            elif tag == "loop":
+            elif tag in ("loop", "loop?"):
+                # `@loop? k`: the spec applies if the function still has a k-th loop (a refactoring may have removed a
+                # trailing bookkeeping loop); `@loop k` demands it
                 section = "loop"
                 arg = rest
+                if tag == "loop?":
+                    cur.optional_loops.add(int(rest))
             elif tag == "proof":
                 if rest.strip() in ("end", "close"):
                     rest = rest.strip() + " <end-of-body>"
@@ -552,6 +557,8 @@ class Gen:
                 ins = []
                 for k, text in ctr.loops.items():
                     if k > len(loops):
+                        if k in ctr.optional_loops:
+                            continue
                         raise Undecided("%s: loop %d not found (function has %d loops)" % (key, k, len(loops)))
                     ins.append((loops[k - 1][1], k, text))
                 for pos, k, text in sorted(ins, reverse=True):
